@@ -493,6 +493,9 @@ class SSHStreamSession(Generic[AnyStr]):
     def data_received(self, data: AnyStr, datatype: DataType) -> None:
         """Handle incoming data on the channel"""
 
+        if not data:
+            return
+
         self._recv_buf[datatype].append(data)
         self._recv_buf_len += len(data)
         self._unblock_read(datatype)
